@@ -1011,7 +1011,29 @@ func (g *gen) doLoop(t typ, d int) (node, bool) {
 	default:
 		test = node{lisp("not", lisp("<", cn, fmt.Sprint(limit))), fmt.Sprintf("(EPrim PNot [EPrim PLt [EVar %s; %s]])", q(cn), gInt(limit))}
 	}
-	if g.r.Chance(25) {
+	// an end test that is not a list form: t (the result forms run at once), or a variable of the loop that the
+	// stepping makes true once the counter has passed the limit
+	atomTest := false
+	if g.r.Chance(22) {
+		sn := cn + "s"
+		clash := false
+		for _, b := range bs {
+			clash = clash || b.v.name == sn
+		}
+		switch {
+		case g.r.Chance(25):
+			g.h("do-atom-test:t")
+			test, atomTest = node{"t", "(EConst DT)"}, true
+		case !clash:
+			g.h("do-atom-test:variable")
+			st := node{lisp(">", cn, fmt.Sprint(limit-1)), fmt.Sprintf("(EPrim PGt [EVar %s; %s])", q(cn), gInt(limit-1))}
+			b := bnd{v: vinfo{name: sn, t: tAny, ro: true}, init: node{"nil", "(EConst DNil)"}, step: &st}
+			bs = append(bs, b)
+			g.push(b.v)
+			test, atomTest = node{sn, "(EVar " + q(sn) + ")"}, true
+		}
+	}
+	if g.r.Chance(25) && !(atomTest && g.r.Chance(70)) {
 		test = g.tr(test)
 	}
 	// a variable stepped after the counter reads the counter: do and do* differ; its value is made visible
